@@ -125,6 +125,16 @@ func vdGuard(f func()) (panicked string, alloc uint64, dur time.Duration) {
 const vdAllocC = 1024
 const vdAllocSlack = 65536
 
+// vdClassKey: histogram key of an input class (sweep inputs are grouped per field).
+func vdClassKey(c string) string {
+	if strings.HasPrefix(c, "sweep-") {
+		if i := strings.Index(c, "="); i > 0 {
+			return c[:i]
+		}
+	}
+	return c
+}
+
 func vdPanicSite(p string) string {
 	switch {
 	case strings.Contains(p, "makeslice"):
@@ -188,7 +198,7 @@ func TestVerifC07Addon(t *testing.T) {
 	for _, in := range vdLoadInputs(t, "c07_inputs.json") {
 		obs, got, err := vdDecodeObs(in.Data)
 		cj := string(in.Case)
-		rep.Hist("class=" + in.Class)
+		rep.Hist("class=" + vdClassKey(in.Class))
 		if name == "skeleton" {
 			if err != nil || len(got) != 0 {
 				rep.Fail("skeleton-placeholder", "skeleton-nonempty", fmt.Sprintf("skeleton decoder returned %d batches, err=%v", len(got), err), in.Case)
@@ -372,7 +382,7 @@ func TestVerifC34Addon(t *testing.T) {
 		}
 		cj := string(in.Case)
 		obs, kind, pan, alloc, dur := e.Obs, e.Kind, e.Pan, e.Alloc, time.Duration(e.DurNs)
-		rep.Hist("class=" + in.Class)
+		rep.Hist("class=" + vdClassKey(in.Class))
 		what := name
 		if in.Kind == "index" {
 			what = name + "-index"
